@@ -332,6 +332,10 @@ pub struct Stall {
 
 #[derive(Serialize, Deserialize, Clone, Debug, PartialEq)]
 pub struct RunSpec {
+    /// slot i is built on a fresh, short-lived builder thread (true) instead of the main thread:
+    /// the interpolator is then *moved* to the threads that query it and dropped on yet another
+    #[serde(default)]
+    pub build_on_thread: Vec<bool>,
     pub slots: Vec<SlotCfg>,
     pub threads: Vec<ThreadSpec>,
     pub sched: Sched,
